@@ -93,9 +93,21 @@ CLAIMED = {
              "frames of other contexts are irrelevant; restarts are in id order with the register frame's id; tail resumption re-executes nothing. Kill + restart scenarios compare who is announced with the model. "
              "Generators and commands: see C18/C19.",
              design="5/C17", technique="Lean 4 proof (fold characterisation + link to the instance model); correspondence over kill/restart scenarios", note="S"),
+ "C18": dict(text="Theorems over the Lean model of the generator loop (generators/serve.rs; the pipeline is a parameter): a lifecycle is start, one recv per produced string in production order with that string "
+             "as content, stop - all with the spawn's id as source_id in the spawn's context; an accepted spawn starts a task named by the spawn frame; a live stop of a running task starts it again as the same task; "
+             "a spawn for a running name or without content yields exactly one spawn.error naming it; a duplex instance reads the content of exactly the send frames of its context stored after its start, once, in order; "
+             "restart keeps the spawns that are the last spawn / spawn.error of their (context, name). Scenarios (lists, single values, empty pipelines, duplex echo, rejected spawns, sends in two contexts, kill + restart) "
+             "are run on the real loop and compared with the model. Pipelines that do not parse or yield non-strings panic the worker thread (F17, recorded) and are outside the statements.",
+             design="5/C18", technique="Lean 4 proof over a model of the generator loop; correspondence over generated pipelines incl. duplex input and restarts", note="S"),
+ "C19": dict(text="Theorems over the Lean model of the command loop (commands/serve.rs; the closure is a function of definition and call frame): a call yields one <name><suffix> per value in order with the configured "
+             "TTL in the caller's context, then exactly one complete - or the results before a failure and exactly one error; every frame of a call (explicit appends included) is stamped with the definition's and the call's id; "
+             "a call runs the definition in force under (caller's context, name); the latest valid definition wins, an invalid one is reported once and changes nothing; undefined names do nothing; calls met in the stored "
+             "history are never run; a start-up emits only definition errors and restores exactly the definitions in force. Sequential and concurrent calls, redefinitions, byte-streamed explicit appends and restarts are run "
+             "on the real loop and compared per call.",
+             design="5/C19", technique="Lean 4 proof over a model of the command loop; correspondence per call over generated definitions, concurrent bursts and restarts", note="S"),
 }
 
-SERVE_NOTE = ("Trusted: Lean 4.33 kernel (axioms propext, Classical.choice, Quot.sound only); hand models XsModel/{Handler,Registry}.lean; nushell itself (the closure is a parameter of the model; generated scripts "
+SERVE_NOTE = ("Trusted: Lean 4.33 kernel (axioms propext, Classical.choice, Quot.sound only); hand models XsModel/{Handler,Registry,Command,Generator}.lean; nushell itself (the closure is a parameter of the model; generated scripts "
               "are rendered from a behaviour table that the Lean driver interprets - a wrong rendering shows up as a disagreement); the store's follow subscription as proved for C02/C03/C06. Tie: scenarios run on "
               "the real serve loops (as `xs serve` starts them) in the worker; a tap follower records every frame; each started instance's subscription is rebuilt from the tap and run on the model; announcements "
               "and outputs must agree.")
